@@ -39,7 +39,7 @@ Fixpoint path_eqb (a b : path) : bool :=
   | _, _ => false
   end.
 
-Section Traversals.
+Section Calls.
   Variable T : transformer.
 
   (* _call_userfunc with __default__ = Tree(data, children, meta) *)
@@ -50,11 +50,24 @@ Section Traversals.
   Definition call_token (ty v : string) : value :=
     match on_token T ty with Some f => f ty v | None => VTok ty v end.
 
+End Calls.
+
+Section Traversals.
+  Variable T : transformer.
+  Variable vt : bool.       (* Transformer.__init__(visit_tokens): self.__visit_tokens__ *)
+  Notation call_rule := (call_rule T).
+  Notation call_token := (call_token T).
+
+  (* `elif self.__visit_tokens__ and isinstance(c, Token): res = self._call_userfunc_token(c)`
+     `else: res = c` - the value of a token child and the log entry of the call (if any) *)
+  Definition visit_tok (ty v : string) : value := if vt then call_token ty v else VTok ty v.
+  Definition tok_log (p : path) : log := if vt then [p] else [].
+
   (* the value of a transformed tree, as a plain recursive function (reference) *)
   Fixpoint tr (t : stree) : value :=
     match t with
     | Tr n ch => call_rule n (map tr ch)
-    | Tok ty v => call_token ty v
+    | Tok ty v => visit_tok ty v
     | NoneV => VNone
     end.
 
@@ -72,7 +85,7 @@ Section Traversals.
     match t with
     | Tr n ch => let '(vs, lg) := mapi_log rec_tc p 0 ch in    (* children = list(_transform_children(..)) *)
                  (call_rule n vs, lg ++ [p])                   (* _call_userfunc(tree, children) *)
-    | Tok ty v => (call_token ty v, [p])
+    | Tok ty v => (visit_tok ty v, tok_log p)
     | NoneV => (VNone, [])
     end.
 
@@ -84,7 +97,7 @@ Section Traversals.
     | Tr n ch => let '(vs, lg) := mapi_log ipr_tc p 0 ch in
                  let node := (n, vs) in                        (* tree.children = list(...) *)
                  (call_rule (fst node) (snd node), lg ++ [p])  (* reads tree.data, tree.children *)
-    | Tok ty v => (call_token ty v, [p])
+    | Tok ty v => (visit_tok ty v, tok_log p)
     | NoneV => (VNone, [])
     end.
 
@@ -120,7 +133,7 @@ Section Traversals.
             let args := if Nat.eqb size 0 then [] else rev (firstn size stack) in   (* stack[-size:] *)
             let stack := if Nat.eqb size 0 then stack else skipn size stack in      (* del stack[-size:] *)
             nr_loop2 r (call_rule n args :: stack) (lg ++ [p])
-        | Tok ty v => nr_loop2 r (call_token ty v :: stack) (lg ++ [p])
+        | Tok ty v => nr_loop2 r (visit_tok ty v :: stack) (lg ++ tok_log p)
         | NoneV => nr_loop2 r (VNone :: stack) lg
         end
     end.
@@ -183,7 +196,7 @@ Section Traversals.
         let '(vs, l2) := ip_children h p (S i) r in
         match c with
         | Tr n' ch' => (call_rule n' (cur_children h (p ++ [i]) ch') :: vs, (p ++ [i]) :: l2)
-        | Tok ty v => (call_token ty v :: vs, (p ++ [i]) :: l2)
+        | Tok ty v => (visit_tok ty v :: vs, tok_log (p ++ [i]) ++ l2)
         | NoneV => (VNone :: vs, l2)
         end
     end.
